@@ -335,6 +335,100 @@ func C13(c *core.Ctx) {
 		c.Decide(bad == "", "R13.9", "natural-number-length-bounded", "-", fmt.Sprintf("%d natural-number accumulations in generated parsers, each behind a test of the announced length", nAcc), "a generated parser accumulates a natural number over as many octets as the element announces ("+bad+"): with nine octets the first is shifted out — 01 00 00 00 00 00 00 00 00 decodes as 0 — and the value re-encodes differently; the hand-written ParseNat accepts 1, 2, 4 or 8 octets only")
 		c.Floor("R13.9", "natural-number accumulations in generated parsers", nAcc, 20)
 	}
+	// ---- R13.11 a one-octet element is read only when it announces one octet: in every
+	// generated parser, a ReadByte or Skip(1) that consumes the value of an element (not one
+	// of a byte loop over the announced length) is reachable only on the edge asserting
+	// l == 1 — with another length the reader stays inside the element or lands in the
+	// next one (HopLimit 22 00: the pointer kept for the in-place decrement addressed the
+	// type octet of the element that follows)
+	{
+		nOne, bad := 0, ""
+		seenFn := map[*ssa.Function]bool{}
+		for _, m := range models {
+			fn := p.Func(m.Pkg.PkgPath, m.Name+"ParsingContext", "Parse")
+			if fn == nil || fn.Blocks == nil || seenFn[fn] {
+				continue
+			}
+			seenFn[fn] = true
+			elemLoops := map[*ssa.BasicBlock]bool{}
+			core.Instrs(fn, func(in ssa.Instruction) {
+				if cl, ok := in.(*ssa.Call); ok {
+					if id, okID := core.Callee(&cl.Call); okID && id.Name == "ReadTLNum" {
+						if h := loopHeader(cl.Block()); h != nil {
+							elemLoops[h] = true
+						}
+					}
+				}
+			})
+			core.Instrs(fn, func(in ssa.Instruction) {
+				cl, ok := in.(*ssa.Call)
+				if !ok || !cl.Call.IsInvoke() {
+					return
+				}
+				switch cl.Call.Method.Name() {
+				case "ReadByte":
+				case "Skip":
+					if k, isC := core.ConstInt(cl.Call.Args[0]); !isC || k != 1 {
+						return
+					}
+				default:
+					return
+				}
+				// a read inside a byte loop over the announced length (R13.9) feeds the
+				// accumulation v<<8 | octet
+				accum := false
+				seenV := map[ssa.Value]bool{}
+				var follow func(v ssa.Value, d int)
+				follow = func(v ssa.Value, d int) {
+					if d > 4 || seenV[v] {
+						return
+					}
+					seenV[v] = true
+					for _, r := range core.Refs(v) {
+						switch y := r.(type) {
+						case *ssa.Extract:
+							if y.Index == 0 {
+								follow(y, d+1)
+							}
+						case *ssa.Convert:
+							follow(y, d+1)
+						case *ssa.Phi:
+							follow(y, d+1)
+						case *ssa.BinOp:
+							if y.Op == token.OR {
+								accum = true
+							}
+						}
+					}
+				}
+				follow(cl, 0)
+				if accum {
+					return
+				}
+				_ = elemLoops
+				nOne++
+				one := &core.Atom{Name: "announced length == 1", Match: func(cond ssa.Value) (int, int) {
+					op, x, y, okC := core.Cmp(cond)
+					if !okC || (op != token.EQL && op != token.NEQ) {
+						return 0, 0
+					}
+					if nt, isN := core.StripConv(x).Type().(*types.Named); !isN || nt.Obj().Name() != "TLNum" {
+						return 0, 0
+					}
+					if k, isC := core.ConstInt(core.StripConv(y)); !isC || k != 1 {
+						return 0, 0
+					}
+					return core.Iff(op == token.EQL)
+				}}
+				g := core.Gate(fn, []ssa.Instruction{in}, pos(one))
+				if !(g.OK && g.PassEdges > 0) {
+					bad = core.FuncName(fn) + " at " + c.Pos(in)
+				}
+			})
+		}
+		c.Decide(bad == "", "R13.11", "one-octet-element-announces-one-octet", "-", fmt.Sprintf("%d one-octet reads in generated parsers, each behind l == 1", nOne), "a generated parser consumes one octet for a one-octet field whatever length the element announces ("+bad+"): with TLV-LENGTH 0 the octet belongs to the next element (HopLimit 22 00 followed by 24 ..: the in-place decrement of the hop limit rewrites the type octet of ApplicationParameters in the forwarded wire), with a longer one the rest is parsed as elements")
+		c.Floor("R13.11", "one-octet element reads in generated parsers", nOne, 1)
+	}
 	// ---- R13.10 in a map field every key element is followed by its value element: the
 	// generated encoders hand the entry's value to the (optional-field) value template only
 	// when it is not nil — a nil slice is replaced by an empty one, an entry with a nil
